@@ -188,10 +188,9 @@ Lemma jf_parse_html_text which value s :
   val_ok value = true -> jf (fst (parse_html_text which value s)) = true.
 Proof.
   intros H. unfold parse_html_text. destruct value; try reflexivity.
-  - exact H.
-  - cbn [val_ok] in H.
-    match type of H with jf ?e = true => destruct e end; try (apply jf_first_or_self; exact H).
-    reflexivity.
+  cbn [val_ok] in H.
+  match type of H with jf ?e = true => destruct e end; try (apply jf_first_or_self; exact H).
+  reflexivity.
 Qed.
 
 Lemma array_form_free dflt argument splitted elems :
